@@ -227,17 +227,17 @@ def specFacet (db : Pipe.Db) : Fields → List Val → Option Fields
 
 /-! ### the domain D
 
-  known findings (named as in Spec/PipelineDomain.lean): groupnullempty, groupfalsyid,
-  groupboolnum, groupdockey, addtosetfalsy, firstmissing, minmaxtypes, sumbool, lookupboolnum,
-  and the new
-  accmissing (an accumulator whose argument is an operator with a missing operand skips the
-  document where the rules give the operator a null operand; witness
-  `Props.C03.group_operator_arg_full_fails`);
-  scope limits: nospec, keyscope (group keys that are arrays, ObjectIds, aware dates),
-  accstrict (an accumulator argument is evaluated with missing values propagating, where the
-  C04 theorem does not reach: see `accArgReasons`), sumfloat (`$sum` / `$avg` over doubles),
-  avginexact (the average is not a double), minmaxscope, setscope, joinscope, datenorm, nondoc,
-  collname, `expr:<class of Spec/ExprDomain.lean>`. -/
+  known findings (named as in Spec/PipelineDomain.lean; all three are Python's `==` standing in
+  for the key equality): groupboolnum, groupdockey, lookupboolnum, and addtosetboolnum
+  (`$addToSet` merges `true` with `1` and `false` with `0`);
+  scope limits: nospec, keyscope (group keys that are arrays, ObjectIds, aware dates), sumfloat
+  (`$sum` / `$avg` over doubles: the oracle adds integers), avginexact (the average is not a
+  double), minmaxscope (`$min` / `$max` over arrays, documents, aware dates, generated ObjectIds:
+  not ordered by `Spec.Order.valLt`), setscope, joinscope, datenorm, nondoc, collname,
+  `expr:<class of Spec/ExprDomain.lean>`.
+  Gone with the repairs of the library: groupnullempty, groupfalsyid, addtosetfalsy,
+  firstmissing, minmaxtypes, sumbool, accmissing, and accstrict (the accumulator argument is
+  evaluated like every computed field, `Expr.evalExpr`, which is what the C04 theorem is about). -/
 
 def exprTags (e : Val) (docs : List Val) : List String :=
   docs.flatMap (fun d => tag "expr:" (exprReasons e d))
@@ -260,25 +260,19 @@ def isDblV : Val → Bool
   | .dbl _ _ => true
   | _ => false
 
-/-- a value `$sum` / `$avg` treat as MongoDB does in this model: an integer, or not a number at
-    all (a boolean would be counted as 0 / 1, a double is outside the integer oracle) -/
-def sumOk (v : Val) : Bool := !isBoolV v && !isDblV v
+/-- a value the integer oracle of `$sum` / `$avg` speaks about: anything but a double (what is not
+    a number — a boolean included — is ignored) -/
+def sumOk (v : Val) : Bool := !isDblV v
 
-/-- a value `$addToSet` keeps as it is: a scalar (no boolean) that is truthy, or null -/
-def setOk (v : Val) : Bool := groupKeyOk v && (v.truthy || !notNull v)
+/-- a value `$addToSet` compares as MongoDB does: a scalar that is no boolean -/
+def setOk (v : Val) : Bool := groupKeyOk v
 
 def sumReasons (vals : List Val) : List String :=
-  (if vals.any isBoolV then ["sumbool"] else []) ++ (if vals.any isDblV then ["sumfloat"] else [])
+  if vals.any isDblV then ["sumfloat"] else []
 
-/-- `$min` / `$max`: the non-null values are all numbers, all strings or all naive dates -/
-def oneClass (vals : List Val) : Bool :=
-  let ys := vals.filter notNull
-  ys.all Val.isNumber || ys.all isStr || ys.all isNaiveDate
-
-/-- `$first` / `$last`: the value is present on the first (last) document, or on none -/
-def firstOk : List (Option Val) → Bool
-  | none :: r => r.all Option.isNone
-  | _ => true
+/-- `$min` / `$max`: a value the BSON order of `Spec.Order.valLt` places (null, booleans,
+    numbers, strings, naive dates, the case's ObjectIds) -/
+def orderScalar (v : Val) : Bool := (Spec.Order.valReasons v).isEmpty
 
 def two53 : Nat := 9007199254740992
 
@@ -296,45 +290,12 @@ def accReasons (op : String) (vals : List (Option Val)) : List String :=
      | some v => if avgFits v then [] else ["avginexact"]
      | none => ["avginexact"])
   else if op = "$min" || op = "$max" then
-    (if oneClass (specPush vals) then []
-     else if (specPush vals).all (fun v => groupKeyOk v || isBoolV v) then ["minmaxtypes"]
-     else ["minmaxscope"])
-  else if op = "$first" then (if firstOk vals then [] else ["firstmissing"])
-  else if op = "$last" then (if firstOk vals.reverse then [] else ["firstmissing"])
-  else if op = "$push" then []
+    (if (specPush vals).all orderScalar then [] else ["minmaxscope"])
+  else if op = "$first" || op = "$last" || op = "$push" then []
   else if op = "$addToSet" then
     (specPush vals).flatMap (fun v =>
-      if !groupKeyOk v then ["setscope"]
-      else if v.truthy || !notNull v then [] else ["addtosetfalsy"])
+      if groupKeyOk v then [] else if isBoolV v then ["addtosetboolnum"] else ["setscope"])
   else ["nospec"]
-
-/-- variadic operators (operands read one by one) allowed as an accumulator argument -/
-def accListOps : List String :=
-  ["$add", "$multiply", "$subtract", "$divide", "$mod", "$pow", "$concat", "$concatArrays",
-   "$arrayElemAt", "$strcasecmp"]
-
-def nonDoc : Val → Bool
-  | .doc _ => false
-  | _ => true
-
-/-- the argument `e` of an accumulator on the documents `g` of a group.  The code evaluates it
-    with missing values PROPAGATING (no `ignore_missing_keys`), where the C04 theorem does not
-    reach; the two evaluations agree on a field path / variable / constant, and on one variadic
-    operator over such operands when every operand has a value (`accmissing` otherwise: the
-    code skips the document, the rules give the operator a null operand).  Any other operator
-    document: `accstrict`. -/
-def accArgReasons (e : Val) (g : List Val) : List String :=
-  match e with
-  | .doc [(k, .arr xs)] =>
-    if accListOps.contains k && xs.all nonDoc then
-      g.flatMap (fun d => xs.flatMap (fun x =>
-        tag "expr:" (exprReasons x d) ++
-        (match exprValue x d with
-         | some (some _) => []
-         | _ => ["accmissing"])))
-    else ["accstrict"]
-  | .doc _ => ["accstrict"]
-  | _ => []
 
 /-- the accumulator fields of one group -/
 def accFieldReasons : Fields → List Val → List String
@@ -344,7 +305,7 @@ def accFieldReasons : Fields → List Val → List String
     else
       (match spec with
        | .doc [(op, e)] =>
-         accArgReasons e g ++ exprTags e g ++
+         exprTags e g ++
          (match mapOpt (exprValue e) g with
           | some vals => accReasons op vals
           | none => ["nospec"])
@@ -355,9 +316,6 @@ def groupReasons (opts : Val) (docs : List Val) : List String :=
   | .doc options =>
     match dget "_id" options with
     | some idExpr =>
-      (if idExpr.truthy then []
-       else if notNull idExpr then ["groupfalsyid"]
-       else if docs.isEmpty then ["groupnullempty"] else []) ++
       exprTags idExpr docs ++
       (match specKeyed idExpr docs with
        | some kds =>
